@@ -88,4 +88,60 @@ VARIANTS = [
          old="        else:\n            setattr(obj, name, data[name])", new="        else:\n            value = data[name]\n            setattr(obj, name, value)"),
     dict(name="c09-array-copy-reads-destination-name", property="C09", rule="C09-B",
          edits=[dict(file=V, old="getattr(value._bound_obj, value._private_name)", new="getattr(value._bound_obj, self._private_name)", count=5)]),
+
+    # ---------------- wave 5 ----------------
+    dict(name="c09-bytes-folded-by-key-not-length", property="C09", rule="C09-L", file=V,
+         old="""                if len(value) == 1:
+                    value = int.from_bytes(value, "little")
+                else:
+                    value = [v for v in value]""",
+         new="""                if isinstance(key, slice):
+                    value = [v for v in value]
+                else:
+                    value = int.from_bytes(value, "little")"""),
+    dict(name="c09-silent-fold-by-index", property="C09", expect="silent", file=V,
+         old="""                if len(value) == 1:
+                    value = int.from_bytes(value, "little")""",
+         new="""                if len(value) == 1:
+                    value = value[0]"""),
+    dict(name="c10-array-validator-refuses-nan", property="C10", rule="C10-D", file=V,
+         old="            if any(math.isinf(self._ctype(v).value) for v in value):",
+         new="            if not all(math.isfinite(self._ctype(v).value) for v in value):"),
+    dict(name="c10-silent-array-validator-de-morgan", property="C10", expect="silent", file=V,
+         old="            if any(math.isinf(self._ctype(v).value) for v in value):",
+         new="            if not all(not math.isinf(self._ctype(v).value) for v in value):"),
+    dict(name="c09-silent-exitstack-restore", property="C09", expect="silent",
+         edits=[dict(file=V, old="from contextlib import contextmanager", new="from contextlib import ExitStack, contextmanager"),
+                dict(file=V, old="""    if not ignore:
+        token = _VALIDATION_ENABLED.set(False)
+        try:
+            yield
+        finally:
+            _VALIDATION_ENABLED.reset(token)
+    else:
+        yield  # dummy context""",
+                     new="""    with ExitStack() as stack:
+        if not ignore:
+            token = _VALIDATION_ENABLED.set(False)
+            stack.callback(_VALIDATION_ENABLED.reset, token)
+        yield""")]),
+    dict(name="c09-exitstack-registers-after-yield", property="C09", rule="C09-C",
+         edits=[dict(file=V, old="from contextlib import contextmanager", new="from contextlib import ExitStack, contextmanager"),
+                dict(file=V, old="""    if not ignore:
+        token = _VALIDATION_ENABLED.set(False)
+        try:
+            yield
+        finally:
+            _VALIDATION_ENABLED.reset(token)
+    else:
+        yield  # dummy context""",
+                     new="""    with ExitStack() as stack:
+        if not ignore:
+            token = _VALIDATION_ENABLED.set(False)
+        yield
+        if not ignore:
+            stack.callback(_VALIDATION_ENABLED.reset, token)""")]),
+
+    dict(name="c10-copy-through-instance-receiver", property="C10", rule="C10-C", file="src/pyrtma/message.py",
+         old="            type(m.data).from_buffer_copy(m.data),", new="            m.data.from_buffer_copy(m.data),"),
 ]
